@@ -974,3 +974,8 @@ V("lex-strict-half-forgotten", "break", ["C08"], P + "lexicographic_leq_propagat
   edits=[{"old": "        y[q, MIN] = max(y[q, MIN], x[q, MIN] + 1)\n", "new": "        y[q, MIN] = max(y[q, MIN], x[q, MIN])\n", "occurrence": 0}])
 V("lex-strict-half-commuted", "neutral", ["C08", "C01", "C07"], P + "lexicographic_leq_propagator.py", None, None, "x.MIN + 1 written 1 + x.MIN",
   edits=[{"old": "        y[q, MIN] = max(y[q, MIN], x[q, MIN] + 1)\n", "new": "        y[q, MIN] = max(y[q, MIN], 1 + x[q, MIN])\n", "occurrence": 0}])
+# ---- R-MARK-REUSE (round 6)
+V("scc-marks-not-cleared", "break", ["C01"], P + "scc_propagator.py", "    visited[:] = False\n", "", "the second reachability pass starts on the marks of the first", "compute_domains_scc",
+  expect_rule="R-MARK-REUSE")
+V("scc-marks-reallocated", "neutral", ["C01"], P + "scc_propagator.py", "    visited[:] = False\n", "    visited = np.zeros(n, dtype=np.bool)\n", "a fresh mark array instead of a reset")
+V("scc-marks-fill", "neutral", ["C01"], P + "scc_propagator.py", "    visited[:] = False\n", "    visited.fill(False)\n", "reset through fill()")
